@@ -1,9 +1,8 @@
 SPECIFICATION Spec
 CONSTANTS
   Threads = {1, 2}
-  Locks = {1, 2}
+  Locks = {1}
   Cells = {1}
-  MaxSteps = 10
-  Recursive = FALSE
-INVARIANTS Excl Sound
+  MaxSteps = 6
+INVARIANTS Excl Exact Sound
 CHECK_DEADLOCK FALSE
